@@ -204,7 +204,10 @@ class Lexer:
 
     def t_RPAR(self, token):
         r'\)'
-        token.lexer.pop_state()
+        # A closing parenthesis without an opening one has no state to return
+        # to; the parser reports it as a syntax error.
+        if token.lexer.lexstatestack:
+            token.lexer.pop_state()
         return token
 
     def t_ANY_BOOLEAN(self, token):
